@@ -59,7 +59,8 @@ Step ==
          /\ UNCHANGED <<openW, strictOpen, cEnd, sEnd, lastId, mayFail, closed>>
     [] Ev.ev = "q" ->
          \* exact quiescence: every frame written so far has been processed by the client
-         /\ Mark(~closed /\ pend = <<>> /\ Stuck(Ev.blocked, NOpen, acked), "P_Admit_stuck", l)
+         \* (held = 1: the driver itself is holding callers at the hook point before their select)
+         /\ Mark(~closed /\ pend = <<>> /\ Ev.held = 0 /\ Stuck(Ev.blocked, NOpen, acked), "P_Admit_stuck", l)
          /\ Drift(~closed /\ pend # <<>>, "unacked_settings_at_quiescence", l)
          /\ Drift(~closed /\ pend = <<>> /\ Ev.snap = 1 /\ (Ev.maxc # acked \/ Ev.quota # acked - NOpen), "ledger", l)
          /\ UNCHANGED <<openW, strictOpen, cEnd, sEnd, acked, pend, lastId, mayFail, closed>>
